@@ -490,6 +490,16 @@ func (env *Env) trCall(e *Expr, expect string) TV {
 			trFail("%s is not a pointer parameter or result", e.Args[0].Tok)
 		}
 		return v
+	case "ref":
+		// identity of the object a pointer parameter points to
+		if len(e.Args) != 1 || e.Args[0].Kind != "id" {
+			trFail("ref needs a pointer parameter name")
+		}
+		v, ok := env.vars[e.Args[0].Tok+"$ref"]
+		if !ok {
+			trFail("%s is not a pointer parameter", e.Args[0].Tok)
+		}
+		return v
 	case "is_string", "is_uint64", "is_int64", "is_bool":
 		x := env.tr(e.Args[0], "Iface")
 		return TV{fmt.Sprintf("(= (iface.tag %s) %d)", x.T, u.BoxTag(basicByName(name[3:]))), "Bool"}
